@@ -292,6 +292,12 @@ pub fn c03(ctx: &Ctx) -> Report {
         vec!["12, 5"],
         vec!["0, 5"],
         vec!["5, 5"],
+        // a blank or tab between digits; zero-padded valid lengths of 21 and 30 characters
+        vec!["1 2"],
+        vec!["1\t2"],
+        vec!["5", "1 2"],
+        vec!["000000000000000000005"],
+        vec!["000000000000000000000000000005", "5"],
         vec!["5 "],
         vec!["5  ", "5"],
         vec!["05"],
